@@ -1,10 +1,10 @@
 #!/bin/sh
 # usage: check.sh <property id> <quick|thorough>
-. /verif/scripts/env.sh
+. "$(dirname "$0")/env.sh"
 id="$1"; tier="${2:-${VERIF_TIER:-quick}}"
-if ! out=$(/verif/scripts/build.sh 2>&1); then
+if ! out=$("$VERIF_ROOT/scripts/build.sh" 2>&1); then
   echo "$out" >&2
   echo "build failed" >&2
   exit 2
 fi
-exec /verif/bin/vcheck run "$id" "$tier"
+exec $VERIF_ROOT/bin/vcheck run "$id" "$tier"
